@@ -206,6 +206,12 @@ var transforms = []transform{
 	{"scale=2^-10,offset=(-2^20,+2^19)", 1.0 / 1024, -(1 << 20), 1 << 19},
 }
 
+// the transforms under which the non-default slice layouts are run
+var layoutTransforms = []transform{
+	{"identity", 1, 0, 0},
+	{"scale=2^-10,offset=(+2^10,-2^10)", 1.0 / 1024, 1024, -1024},
+}
+
 func transformByName(n string) (transform, bool) {
 	for _, t := range transforms {
 		if t.Name == n {
@@ -233,7 +239,14 @@ func (t transform) exact(p P) bool {
 type Case struct {
 	Pts [][2]int64 `json:"pts"`
 	T   string     `json:"transform"`
+	// Layout of the slice handed to the library: 0 = cap == len, 1 = eight elements of spare capacity,
+	// 2 = a prefix of a longer slice whose tail holds other points
+	Layout int `json:"layout,omitempty"`
+	// Family names a structured (non-lattice) point set (families.go); empty for lattice subsets
+	Family string `json:"family,omitempty"`
 }
+
+var layoutNames = [3]string{"exact-capacity", "spare-capacity", "prefix-of-longer-slice"}
 
 type checker struct{ c *core.Ctx }
 
@@ -276,10 +289,22 @@ func canonTris(idx []int) [][3]int {
 
 // evaluate runs the library on the transformed points and applies every oracle clause.
 // Returns the outcome label, the findings (one per violated clause) and the canonical triangles.
-func evaluate(pts []P, tr transform) (label string, fs []finding, tris [][3]int, crashSite string) {
+func evaluate(pts []P, tr transform, layout int) (label string, fs []finding, tris [][3]int, crashSite string) {
 	n := len(pts)
 	mine := make([]vector2.Float64, n) // the harness's own copy
-	in := make([]vector2.Float64, n)   // fresh slice handed to the library (cap == len)
+	var in []vector2.Float64           // fresh slice handed to the library
+	switch layout {
+	case 1:
+		in = make([]vector2.Float64, n, n+8)
+	case 2:
+		long := make([]vector2.Float64, n+5)
+		for i := n; i < len(long); i++ {
+			long[i] = tr.apply(P{int64(7 * (i - n + 1)), int64(-3 * (i - n + 2))}) // not part of the input
+		}
+		in = long[:n]
+	default:
+		in = make([]vector2.Float64, n)
+	}
 	for i, p := range pts {
 		mine[i] = tr.apply(p)
 		in[i] = mine[i]
@@ -433,7 +458,10 @@ func caseOf(pts []P, tr transform) Case {
 }
 
 // check executes one case and does the bookkeeping. deg is the degeneracy of the point set.
-func (k checker) check(pts []P, tr transform, deg string) {
+func (k checker) check(pts []P, tr transform, deg string) { k.checkAs(pts, tr, deg, 0, "") }
+
+// checkAs: layout = how the input slice is laid out; family = "" for lattice subsets.
+func (k checker) checkAs(pts []P, tr transform, deg string, layout int, family string) {
 	c := k.c
 	for _, p := range pts {
 		if !tr.exact(p) {
@@ -441,8 +469,13 @@ func (k checker) check(pts []P, tr transform, deg string) {
 			return
 		}
 	}
-	label, fs, tris, crashSite := evaluate(pts, tr)
+	label, fs, tris, crashSite := evaluate(pts, tr, layout)
 	cs := caseOf(pts, tr)
+	cs.Layout, cs.Family = layout, family
+	if family != "" {
+		k.familyBookkeeping(cs, tr, label, fs, tris, crashSite)
+		return
+	}
 	if deg != "" {
 		scope := "degenerate(" + deg + ")/" + tr.Name
 		c.Eval(scope, label)
@@ -450,14 +483,20 @@ func (k checker) check(pts []P, tr transform, deg string) {
 		return
 	}
 	scope := "general-position/" + tr.Name
+	if layout != 0 {
+		scope = "general-position/" + layoutNames[layout] + "/" + tr.Name
+	}
 	c.Eval(scope, label)
 	c.Sample(scope, map[string]any{"case": cs, "triangles": tris, "outcome": label})
 	if len(tris) > 0 {
-		c.Nontrivial(fmt.Sprint(cs.Pts), tr.Name)
+		c.Nontrivial(fmt.Sprint(cs.Pts), tr.Name, layout)
 	}
 	class := tr.Name + "/sorted-order"
 	if !isSorted(pts) {
 		class = tr.Name + "/permuted-order"
+	}
+	if layout != 0 {
+		class += "/" + layoutNames[layout]
 	}
 	// Optional stricter reading (job arg demand_nonempty=1, off by default): the statement's clauses
 	// all quantify over the triangles of the result and hold vacuously for an empty result, so by
@@ -592,6 +631,20 @@ func run(c *core.Ctx) {
 					k.check(pts, tr, deg)
 				}
 			}
+			// the other layouts of the input slice (spare capacity, prefix of a longer slice): the
+			// canonical order and its reverse under two transforms
+			if deg == "" {
+				rev := make([]P, len(pts))
+				for i, p := range pts {
+					rev[len(pts)-1-i] = p
+				}
+				for _, tr := range layoutTransforms {
+					for layout := 1; layout <= 2; layout++ {
+						k.checkAs(pts, tr, "", layout, "")
+						k.checkAs(rev, tr, "", layout, "")
+					}
+				}
+			}
 			return true
 		})
 		if done {
@@ -599,6 +652,10 @@ func run(c *core.Ctx) {
 		}
 	}
 	c.Bound("general_position_subsets", gpCount)
+	c.Bound("input_slice_layouts", "every general-position subset also with eight elements of spare capacity and as a prefix of a longer slice (canonical order and its reverse, transforms identity and scale=2^-10,offset=(+2^10,-2^10))")
+	if done {
+		k.runFamilies()
+	}
 }
 
 func replay(c *core.Ctx) {
@@ -614,5 +671,9 @@ func replay(c *core.Ctx) {
 		return
 	}
 	pts := ptsOf(cs)
-	checker{c}.check(pts, tr, degeneracy(pts))
+	if cs.Family != "" {
+		checker{c}.checkAs(pts, tr, "", cs.Layout, cs.Family)
+		return
+	}
+	checker{c}.checkAs(pts, tr, degeneracy(pts), cs.Layout, "")
 }
